@@ -92,6 +92,8 @@ type Config struct {
 	// site's pc) are scheduling points in this run (swarm-style subset; 0 = all sites). Post-wake points
 	// and lock blocking are never sampled away, so control is kept either way.
 	SiteSample float64
+	// Progress, if set, is called every 4096 scheduler steps (watchdogs: a long run is not a stuck run).
+	Progress func() `json:"-"`
 }
 
 // Step is one scheduler decision.
@@ -813,6 +815,9 @@ func (s *Sim) loop() {
 		}
 		s.mu.Lock()
 		s.steps++
+		if s.cfg.Progress != nil && s.steps%4096 == 0 {
+			s.cfg.Progress()
+		}
 		if n >= 2 {
 			s.res.Contended++
 			if last != nil && pick != last {
